@@ -215,6 +215,8 @@ class Equalizer(object):
 
         finally:
             self._terminate_process.set()
+            if self._compare_process is not None:
+                self._stop_compare_process()
             self._compare_tasks.close()
             self._compare_results.close()
             log_prefix = u'Completed all' if completed else u'Error during playback, executed'
@@ -274,6 +276,22 @@ class Equalizer(object):
         self._compare_process = None
         raise Exception("timeout while running recording playback and comparison")
 
+    def _stop_compare_process(self):
+        """
+        Signals the compare process to terminate and waits for it to do so. A process that does not leave by itself
+        (e.g. the played code left a non daemon thread behind, which keeps the process from exiting) is killed once
+        the compare process timeout has passed
+        """
+        self._terminate_process.set()
+        self._compare_process.join(self.compare_execution_config.compare_process_timeout)
+        if self._compare_process.is_alive():
+            try:
+                self._kill_compare_process()
+            except OSError as ex:
+                # Don't fail when could not kill
+                _logger.warning(u'Error while killing worker, {}'.format(str(ex)))
+        self._compare_process = None
+
     def _kill_compare_process(self):
         """
         Kills the compare process
@@ -291,9 +309,7 @@ class Equalizer(object):
         if self._compare_process is not None and \
                 self._compare_process_age >= self.compare_execution_config.compare_process_recycle_rate:
             # Signal process to terminate and wait for it to do so
-            self._terminate_process.set()
-            self._compare_process.join()
-            self._compare_process = None
+            self._stop_compare_process()
             # Reset terminate state
             self._terminate_process.clear()
 
